@@ -61,9 +61,20 @@ Definition set_perm (m : fmeta) (p : N) : fmeta := mkFMeta p (fm_uid m) (fm_gid 
 Definition set_owner (m : fmeta) (u g : N) : fmeta := mkFMeta (fm_perm m) u g (fm_mtime m) (fm_xattrs m).
 Definition set_xattrs (m : fmeta) (x : list (bytes * bytes)) : fmeta := mkFMeta (fm_perm m) (fm_uid m) (fm_gid m) (fm_mtime m) x.
 
-(* a fresh object: mode &^ umask, owned by the process, created now *)
-Definition fresh (pr : proc) (mode : N) : fmeta :=
-  mkFMeta (N.ldiff (N.land mode 4095) (p_umask pr)) (p_uid pr) (p_gid pr) Now [].
+(* a fresh object in the directory [parent]: mode &^ umask, owned by the process, created now.
+   Linux (inode_init_owner): in a set-group-ID directory the new object gets the directory's
+   group instead of the process's, and a new directory the set-group-ID bit as well -- only an
+   explicit chown gives such an entry a group of its own. *)
+Definition inherit_gid (pr : proc) (parent : fmeta) : N :=
+  if has (fm_perm parent) S_ISGID then fm_gid parent else p_gid pr.
+
+Definition fresh (pr : proc) (parent : fmeta) (isdir : bool) (mode : N) : fmeta :=
+  let p := N.ldiff (N.land mode 4095) (p_umask pr) in
+  mkFMeta (if isdir && has (fm_perm parent) S_ISGID then N.lor p S_ISGID else p)
+          (p_uid pr) (inherit_gid pr parent) Now [].
+
+(* the parent of the extraction directory: nothing is inherited from it *)
+Definition meta_none : fmeta := mkFMeta 0 0 0 Now [].
 
 (* ---------- lookup and update ---------- *)
 
@@ -136,10 +147,10 @@ Fixpoint split_last (p : list bytes) : option (list bytes * bytes) :=
 (* what happens inside the parent directory when the entry nm is changed: g gets the current
    binding and returns the new one and whether the set of entries changed (then the
    directory's mtime becomes Now) *)
-Definition in_dir (nm : bytes) (g : option fnode -> fres (option fnode * bool)) (d : fnode) : fres fnode :=
+Definition in_dir (nm : bytes) (g : fmeta -> option fnode -> fres (option fnode * bool)) (d : fnode) : fres fnode :=
   match d with
   | FDir m l =>
-      match g (assoc nm l) with
+      match g m (assoc nm l) with
       | FErr e => FErr e
       | FOk (o', touched) =>
           match upd_ents (fun _ => FOk o') nm l with
@@ -150,7 +161,7 @@ Definition in_dir (nm : bytes) (g : option fnode -> fres (option fnode * bool)) 
   | _ => FErr ENOTDIR
   end.
 
-Definition entry_op (p : list bytes) (g : option fnode -> fres (option fnode * bool)) (s : fnode) : fres fnode :=
+Definition entry_op (p : list bytes) (g : fmeta -> option fnode -> fres (option fnode * bool)) (s : fnode) : fres fnode :=
   match split_last p with
   | None => FErr EINVAL                                   (* the root has no entry *)
   | Some (parent, nm) => at_path parent (in_dir nm g) s
@@ -161,18 +172,18 @@ Definition entry_op (p : list bytes) (g : option fnode -> fres (option fnode * b
 Definition lstat (p : list bytes) (s : fnode) : option fnode := lookup p s.
 
 Definition mkdir (pr : proc) (p : list bytes) (mode : N) : fnode -> fres fnode :=
-  entry_op p (fun o => match o with
+  entry_op p (fun pm o => match o with
                        | Some _ => FErr EEXIST
-                       | None => FOk (Some (FDir (fresh pr mode) []), true)
+                       | None => FOk (Some (FDir (fresh pr pm true mode) []), true)
                        end).
 
 (* os.RemoveAll: gone afterwards, no error when it was not there *)
 Definition remove_all (p : list bytes) : fnode -> fres fnode :=
-  entry_op p (fun o => match o with Some _ => FOk (None, true) | None => FOk (None, false) end).
+  entry_op p (fun pm o => match o with Some _ => FOk (None, true) | None => FOk (None, false) end).
 
 (* syscall.Unlink *)
 Definition unlink (p : list bytes) : fnode -> fres fnode :=
-  entry_op p (fun o => match o with
+  entry_op p (fun pm o => match o with
                        | Some (FDir _ _) => FErr EISDIR
                        | Some _ => FOk (None, true)
                        | None => FErr ENOENT
@@ -180,26 +191,26 @@ Definition unlink (p : list bytes) : fnode -> fres fnode :=
 
 (* os.OpenFile(O_CREATE|O_WRONLY|O_TRUNC, mode) followed by writing data and Close *)
 Definition create_write (pr : proc) (p : list bytes) (mode : N) (data : bytes) : fnode -> fres fnode :=
-  entry_op p (fun o => match o with
-                       | None => FOk (Some (FFile (fresh pr mode) data), true)
+  entry_op p (fun pm o => match o with
+                       | None => FOk (Some (FFile (fresh pr pm false mode) data), true)
                        | Some (FFile m _) => FOk (Some (FFile (set_mtime m Now) data), false)
                        | Some (FDir _ _) => FErr EISDIR
                        | Some _ => FErr EINVAL
                        end).
 
 Definition symlink (pr : proc) (target : bytes) (p : list bytes) : fnode -> fres fnode :=
-  entry_op p (fun o => match o with
+  entry_op p (fun pm o => match o with
                        | Some _ => FErr EEXIST
-                       | None => FOk (Some (FLink (mkFMeta 511 (p_uid pr) (p_gid pr) Now []) target), true)
+                       | None => FOk (Some (FLink (mkFMeta 511 (p_uid pr) (inherit_gid pr pm) Now []) target), true)
                        end).
 
 Definition mknod (pr : proc) (p : list bytes) (mode dev : N) : fnode -> fres fnode :=
-  entry_op p (fun o => match o with
+  entry_op p (fun pm o => match o with
                        | Some _ => FErr EEXIST
                        | None =>
                            let ty := N.land mode S_IFMT in
                            if (ty =? S_IFCHR) || (ty =? S_IFBLK)
-                           then FOk (Some (FDev (fresh pr mode) (ty =? S_IFCHR) dev), true)
+                           then FOk (Some (FDev (fresh pr pm false mode) (ty =? S_IFCHR) dev), true)
                            else FErr EINVAL
                        end).
 
@@ -281,6 +292,17 @@ Definition create_file_reuse (pr : proc) (o : lopts) (p : list bytes) (m : meta)
   dof s1 <- create_write pr p 438 data s0;
   dof s2 <- set_permissions o p m xs s1;
   set_times p m s2.
+
+(* NOT the code: a variant of CreateFile whose SetFilePermissions skips the chown when the file is
+   meant to belong to the user and group running the extraction ("it is new, so it does already").
+   See create_file_lazy_chown_refuted: not so in a set-group-ID directory. *)
+Definition create_file_lazy_chown (pr : proc) (p : list bytes) (m : meta) (xs : list (bytes * bytes)) (data : bytes) (s : fnode) : fres fnode :=
+  dof s0 <- remove_all p s;
+  dof s1 <- create_write pr p 438 data s0;
+  dof s2 <- (if (m_uid m =? p_uid pr) && (m_gid m =? p_gid pr) then FOk s1 else chown p (m_uid m) (m_gid m) s1);
+  dof s3 <- set_all_xattrs p xs s2;
+  dof s4 <- chmod p (node_statmode m) s3;
+  set_times p m s4.
 
 (* unlink errors other than "does not exist" are returned *)
 Definition unlink_if_there (p : list bytes) (s : fnode) : fres fnode :=
@@ -384,4 +406,4 @@ Fixpoint expect (pr : proc) (o : lopts) (t : tree) : option fnode :=
   end.
 
 (* a new, empty extraction directory *)
-Definition empty_root (pr : proc) : fnode := FDir (fresh pr 511) [].
+Definition empty_root (pr : proc) : fnode := FDir (fresh pr meta_none true 511) [].
